@@ -286,7 +286,7 @@ static int sim_parsecb(cfg_t *cfg, cfg_opt_t *opt, const char *value, void *resu
 	uint64_t h = fnv64(v);
 	switch (opt->type) {
 	case CFGT_INT:
-		*(long *)result = (long)(h % 100000);
+		*(long *)result = (h & 4) ? ((h & 8) ? -(long)(h >> 3) : (long)(h >> 3)) : (long)(h % 100000); // see events.h produced_repr
 		break;
 	case CFGT_FLOAT:
 		*(double *)result = (double)(h % 1000) / 8.0;
